@@ -175,8 +175,15 @@ def check_best_k(mode, rung, promoted, not_promoted, new_len):
 class LogChecker:
     """Tracks every bracket's rungs from the implementation's job / result log only."""
 
-    def __init__(self, rss, mode):
+    def __init__(self, rss, mode, dehb=False):
         self.rss, self.mode = [list(map(tuple, rs)) for rs in rss], mode
+        # dehb: DEHB brackets do not promote by themselves (slots of higher rungs carry no trial id,
+        # on_result returns [] at rung completion); the top list is asked for separately
+        self.dehb = dehb
+        # what the HARNESS knows about a job (bracket, rung, slot): the value it reported itself, or NaN if
+        # it made the job fail (on_trial_error / searcher without config). Used instead of whatever value
+        # the implementation recorded, so "failed ranks last" is judged on real failures.
+        self.truth = {}
         self.brackets = []   # per bracket: dict(sys, rungs: {k: {pos: [trial, metric|None]}}, cur, promoted: {k: set})
         self.problems = []
         self.stats = dict(rungs_completed=0, promotions=0, max_open=0, new_brackets=0, failed_promoted=0)
@@ -218,10 +225,15 @@ class LogChecker:
                      "slot_handed_twice")
             return
         rung[pos] = [s["trial_id"], None]
-        if k == 0:
+        if k == 0 or self.dehb:
             if s["trial_id"] is not None:
-                self.bad("bracket %d rung 0 slot %d: trial id %s pre-assigned" % (bid, pos, s["trial_id"]), "rung0_preassigned")
+                self.bad("bracket %d rung %d slot %d: trial id %s pre-assigned" % (bid, k, pos, s["trial_id"]), "rung0_preassigned")
         else:
+            prev = {v[0]: v[1] for v in b["rungs"].get(k - 1, {}).values()}
+            nvalid = sum(1 for v in prev.values() if v is not None and not isnan(v))
+            if s["trial_id"] in prev and prev[s["trial_id"]] is not None and isnan(prev[s["trial_id"]]) and nvalid >= size:
+                self.bad("bracket %d: failed trial %s is resumed to rung %d (%d slots) although %d trials of rung %d "
+                         "have valid results" % (bid, s["trial_id"], k, size, nvalid, k - 1), "failed_trial_resumed")
             prom = b["promoted"].get(k)
             if prom is None or s["trial_id"] not in prom:
                 self.bad("bracket %d rung %d: trial %s resumed but it is not among the promoted trials %s" % (
@@ -243,7 +255,7 @@ class LogChecker:
             self.bad("bracket %d: result accepted for rung %d slot %d which is not a pending slot" % (bid, k, pos),
                      "result_for_non_pending_slot")
             return
-        rung[pos] = [s["trial_id"], s["metric_val"]]
+        rung[pos] = [s["trial_id"], self.truth.get((bid, k, pos), s["metric_val"])]
         size = b["sys"][k][0]
         complete = len(rung) == size and all(v[1] is not None for v in rung.values())
         if not complete:
@@ -265,6 +277,10 @@ class LogChecker:
             return
         self.stats["promotions"] += 1
         new_len = b["sys"][k + 1][0]
+        if self.dehb:
+            if ret != []:
+                self.bad("DEHB bracket %d rung %d: on_result returned %s at rung completion" % (bid, k, ret), "dehb_promotes")
+            return
         if None in ids or len(set(ids)) != len(ids):
             # searcher failed to deliver a config for some slot: outside the property's quantifier
             b["promoted"][k + 1] = set(ids)
@@ -278,6 +294,17 @@ class LogChecker:
             self.bad("bracket %d rung %d -> %d: %s" % (bid, k, k + 1, msg), "promoted_not_best")
         if any(isnan(dict(entries)[t]) for t in promoted):
             self.stats["failed_promoted"] += 1
+
+    def check_top_list(self, bid, k, top):
+        """DEHB: [top] = manager.top_of_previous_rung(bid, 0..size-1) right after rung k of bracket bid completed"""
+        b = self.brackets[bid]
+        entries = [(v[0], v[1]) for v in b["rungs"][k].values()]
+        ids = [t for t, _ in entries]
+        if None in ids or len(set(ids)) != len(ids):
+            return
+        msg = check_best_k(self.mode, entries, list(top), [t for t in ids if t not in set(top)], b["sys"][k + 1][0])
+        if msg:
+            self.bad("DEHB bracket %d rung %d top list: %s" % (bid, k, msg), "promoted_not_best")
 
     def pending_slots(self):
         res = set()
@@ -378,10 +405,16 @@ def gen_mgr_spec(rng):
         desc, rss = gen_rung_systems(rng)
         if rss_valid(rss):
             break
-    return dict(rss_desc=desc, rss=rss, mode=rng.choice(["min", "max"]), workers=rng.choice([1, 2, 3, 4, 6, 9, 14]),
-                style=rng.choice(["grid", "grid", "grid_fine", "float"]), pfail=rng.choice([0.0, 0.1, 0.3, 0.6]),
-                pbogus=rng.choice([0.0, 0.0, 0.05]), steps=rng.randint(10, 90), seed=rng.randrange(1 << 30),
-                policy=rng.choice(["random", "lifo", "fifo", "newest_bracket_first"]))
+    sp = dict(rss_desc=desc, rss=rss, mode=rng.choice(["min", "max"]), workers=rng.choice([1, 2, 3, 4, 6, 9, 14]),
+              style=rng.choice(["grid", "grid", "grid_fine", "float"]), pfail=rng.choice([0.0, 0.1, 0.3, 0.6]),
+              pbogus=rng.choice([0.0, 0.0, 0.05]), steps=rng.randint(10, 90), seed=rng.randrange(1 << 30),
+              policy=rng.choice(["random", "lifo", "fifo", "newest_bracket_first"]))
+    if rng.random() < 0.2:
+        # DEHB's bracket manager (dehb_bracket_manager.py) through the same next_job / on_result interface:
+        # all brackets are suffixes of the first rung system; checked by the log checker only (not modelled)
+        sp["dehb"] = dict(num_brackets=rng.choice([None, rng.randint(1, len(rss[0]))]))
+        sp["pbogus"] = 0.0
+    return sp
 
 
 def run_mgr(ctx, replay):
@@ -398,8 +431,16 @@ def run_mgr(ctx, replay):
     for sp in specs:
         rng = _random.Random(sp["seed"])
         rss = [[tuple(x) for x in rs] for rs in sp["rss"]]
-        mgr = SynchronousHyperbandBracketManager(rss, sp["mode"])
-        chk = LogChecker(rss, sp["mode"])
+        dehb = sp.get("dehb")
+        if dehb:
+            from syne_tune.optimizer.schedulers.synchronous.dehb_bracket_manager import (
+                DifferentialEvolutionHyperbandBracketManager)
+            mgr = DifferentialEvolutionHyperbandBracketManager(rss[0], sp["mode"], dehb["num_brackets"])
+            rss = [[(int(a), int(b)) for a, b in rs] for rs in mgr.bracket_rungs]
+            chk = LogChecker(rss, sp["mode"], dehb=True)
+        else:
+            mgr = SynchronousHyperbandBracketManager(rss, sp["mode"])
+            chk = LogChecker(rss, sp["mode"])
         outstanding, done_jobs, evs, log = [], [], [], []
         next_tid = 0
         nfail = 0
@@ -480,6 +521,14 @@ def run_mgr(ctx, replay):
                     break
                 ret = None if ret is None else [None if t is None else int(t) for t in ret]
                 chk.on_result(bid, s, ret)
+                if dehb and ret is not None and s["rung_index"] + 1 < len(rss[bid % len(rss)]):
+                    # DEHB asks the manager for the best entries of the rung just completed
+                    try:
+                        top = [int(mgr.top_of_previous_rung(bid, p)) for p in range(rss[bid % len(rss)][s["rung_index"] + 1][0])]
+                    except Exception as e:
+                        blocked = "top_of_previous_rung raised %s: %s" % (type(e).__name__, e)
+                        break
+                    chk.check_top_list(bid, s["rung_index"], top)
                 done_jobs.append((bid, s))
                 evs.append("MRet %s %s true %s" % (natlit(bid), sirlit(s), optlit(ret, tidlist)))
                 log.append(["ret", bid, dict(s, metric_val=jnum(s["metric_val"])), ret])
@@ -490,7 +539,7 @@ def run_mgr(ctx, replay):
                     "pending_slots_mismatch")
         st = chk.stats
         ctx.count(("mgr", sp), nontrivial=st["rungs_completed"] >= 1 and (st["max_open"] >= 2 or nfail >= 1))
-        ctx.h("mgr_rss", sp["rss_desc"]["kind"])
+        ctx.h("mgr_rss", sp["rss_desc"]["kind"] + ("_dehb" if dehb else ""))
         ctx.h("mgr_max_open_brackets", min(st["max_open"], 4))
         ctx.h("mgr_rungs_completed", min(st["rungs_completed"], 6))
         ctx.h("mgr_failures", min(nfail, 5))
@@ -498,10 +547,13 @@ def run_mgr(ctx, replay):
         case = dict(kind="mgr", spec=sp)
         if blocked:
             ctx.violation("property", "bracket manager: " + blocked, case=case,
-                          signature=dict(component="SynchronousHyperbandBracketManager", defect="request_raises"))
+                          signature=dict(component="DEHB bracket manager" if dehb else "SynchronousHyperbandBracketManager",
+                                         defect="request_raises"))
         for msg, defect in chk.problems[:2]:
             ctx.violation("property", "bracket manager log: " + msg, case=case,
                           signature=dict(component="SynchronousHyperbandBracketManager", defect=defect))
+        if dehb:
+            continue      # DEHB's bracket variant is not modelled: log checker only
         cases.append("(%s, %s, %s)" % (rsslit(rss), modelit(sp["mode"]), lst(["\n   " + e for e in evs])))
         meta.append(dict(kind="mgr", spec=sp, impl_log=log))
     if cases:
@@ -652,12 +704,18 @@ def run_sched(ctx, replay):
                 except Exception as e:
                     broken = ("suggest", e)
                     break
-                feed()
                 nj = [e for e in rec.log[nlog:] if e[0] == "next"]
                 if len(nj) != 1:
                     broken = ("suggest", RuntimeError("suggest asked the bracket manager for %d jobs" % len(nj)))
                     break
                 bid, s = nj[0][1], nj[0][2]
+                if sg is None:
+                    # no trial was started for this slot: the job failed, whatever value gets recorded
+                    chk.truth[(bid, s["rung_index"], s["slot_index"])] = float("nan")
+                feed()
+                if sg is not None and not sg.spawn_new_trial_id and int(sg.checkpoint_trial_id) != s["trial_id"]:
+                    chk.bad("suggest resumes trial %s but the job is for trial %s" % (sg.checkpoint_trial_id, s["trial_id"]),
+                            "suggestion_job_mismatch")
                 if sg is None:
                     out, cfg_ok = "SNone", False
                     log.append(["suggest", None, bid, s])
@@ -686,6 +744,8 @@ def run_sched(ctx, replay):
                 info = running[t]
                 if rng.random() < sp["pfail"]:
                     nfail += 1
+                    jb, js = info["job"]
+                    chk.truth[(jb, js["rung_index"], js["slot_index"])] = float("nan")   # the harness fails this job
                     try:
                         sch.on_trial_error(trials[t])
                     except Exception as e:
@@ -702,6 +762,9 @@ def run_sched(ctx, replay):
                 v = gen_metric(rng, sp["style"])
                 if rng.random() < 0.03:
                     v = float("nan")       # a training script may also report NaN itself
+                if not inter:
+                    jb, js = info["job"]
+                    chk.truth[(jb, js["rung_index"], js["slot_index"])] = v          # the value the harness reports
                 try:
                     dec = sch.on_trial_result(trials[t], {"m": v, "epoch": res})
                 except Exception as e:
